@@ -263,6 +263,15 @@ def make_ecdsa(rng, clsmap):
       groups[slot] = sigs
     elif c in ('msbA', 'msbB', 'msbC'):
       groups[slot] = gen.msb_biased_sigs(rng, slot + '-', 'secp256r1', 8, 64)
+    elif c in ('tinyissuerA', 'tinyissuerB'):
+      # honest nonces, but the issuer's private key is tiny (CheckWeakECPrivateKey, CRITICAL) AND close to the other tiny issuer
+      # (CheckECKeySmallDifference, HIGH): the issuer-key entry must carry the higher of the two severities
+      d = 5 if c == 'tinyissuerA' else 11
+      sigs = gen.healthy_sigs(rng, slot + '-', 'secp256r1', 2, d=d)
+      for sg in sigs:
+        sg.cls = 'tinyissuer'
+        sg.meta['crit'] = dict({x: 'may' for x in gen.ECDSA_CHECKS}, CheckIssuerKey='must')
+      groups[slot] = sigs
     elif c == 'u2fA':
       # the Cr50 U2F flaw: every byte of the nonce repeated four times; two signatures suffice
       from pv import drive_C08
